@@ -795,37 +795,17 @@ proof fn lemma_outs_finish<V>(n: NfaBuilder<u8, V>, b: NfaBuilder<u8, V>, qs: Se
 
 // ---- leftmost fail links (build_fails_leftmost): dead, or strictly shallower ----
 spec fn link_ok<V>(n: NfaBuilder<u8, V>, s: int, f: int) -> bool {
-    f == 1 || (0 <= f < n.states@.len() && nfa_depth(n, f) < nfa_depth(n, s) && is_suffix(path(n, f), path(n, s)))
+    f == 1 || (fail_ok(n, s, f) && nfa_depth(n, f) < nfa_depth(n, s))
 }
 // link facts for the chase of build_fails_leftmost
-proof fn lemma_link_root<V>(n: NfaBuilder<u8, V>, t: int)
-    requires pctx(n), 2 <= t < n.states@.len(),
-    ensures link_ok(n, t, 0),
-{
-    lemma_depth_is_path_len(n, t);
-    lemma_pctx_len(n);
-    lemma_depth_is_path_len(n, 0);
-    assert(path(n, 0).len() == 0);
-    assert(is_suffix(path(n, 0), path(n, t)));
-    let p = nfa_parent(n, t);
-    assert(nfa_parent_ok(n, t, p)) by { reveal(pctx); }
-    lemma_path_child(n, p.0, p.1);
-}
-proof fn lemma_link_child<V>(n: NfaBuilder<u8, V>, s: int, f: int, c: u8)
-    requires pctx(n), 2 <= s < n.states@.len(), 0 <= f < n.states@.len(), f != 1, nfa_edges(n, s).contains_key(c), nfa_edges(n, f).contains_key(c),
-        is_suffix(path(n, f), path(n, s)), nfa_depth(n, f) < nfa_depth(n, s),
-    ensures link_ok(n, nfa_edges(n, s)[c] as int, nfa_edges(n, f)[c] as int),
-{
-    lemma_path_child(n, s, c);
-    lemma_path_child(n, f, c);
-    lemma_suffix_push(path(n, f), path(n, s), c);
-}
-proof fn lemma_link_trans<V>(n: NfaBuilder<u8, V>, s: int, f: int, g: int)
-    requires 0 <= f, is_suffix(path(n, f), path(n, s)), link_ok(n, f, g), g != 1,
-    ensures is_suffix(path(n, g), path(n, s)),
-{
-    lemma_suffix_trans(path(n, g), path(n, f), path(n, s));
-}
+proof fn lemma_link_from_fail_ok<V>(n: NfaBuilder<u8, V>, s: int, f: int)
+    requires pctx(n), 2 <= s < n.states@.len(), fail_ok(n, s, f),
+    ensures link_ok(n, s, f),
+{ lemma_fail_ok_facts(n, s, f); }
+proof fn lemma_link_facts<V>(n: NfaBuilder<u8, V>, s: int, f: int)
+    requires pctx(n), 2 <= s < n.states@.len(), link_ok(n, s, f), f != 1,
+    ensures 0 <= f < n.states@.len(), fail_ok(n, s, f), nfa_depth(n, f) < nfa_depth(n, s), is_suffix(path(n, f), path(n, s)),
+{ }
 #[verifier::opaque]
 spec fn lm_inv<V>(n: NfaBuilder<u8, V>, b: NfaBuilder<u8, V>, qs: Seq<u32>) -> bool {
     &&& passes_frame(n, b) && b.outputs@ == n.outputs@
@@ -858,7 +838,8 @@ proof fn lemma_lm_push_root_child<V>(n: NfaBuilder<u8, V>, qs: Seq<u32>, c: u8)
     let t = nfa_edges(n, 0)[c];
     lemma_pctx_len(n);
     lemma_path_child(n, 0, c);
-    lemma_link_root(n, t as int);
+    lemma_fail_depth1(n, t as int);
+    lemma_link_from_fail_ok(n, t as int, 0);
     let q2 = qs.push(t);
     assert forall|j: int| 0 <= j < q2.len() implies 2 <= #[trigger] q2[j] < n.states@.len() && link_ok(n, q2[j] as int, n.states@[q2[j] as int].fail as int) by {
         if j < qs.len() { assert(q2[j] == qs[j]); }
@@ -897,7 +878,7 @@ proof fn lemma_lm_set<V>(n: NfaBuilder<u8, V>, b: NfaBuilder<u8, V>, b2: NfaBuil
 }
 proof fn lemma_lm_finish<V>(n: NfaBuilder<u8, V>, b: NfaBuilder<u8, V>, qs: Seq<u32>)
     requires pctx(n), lm_inv(n, b, qs), bfs_inv(n, qs, qs.len() as int, Set::<u8>::empty()), n.states@.len() > 2,
-    ensures passes_frame(n, b), fails_ok(b, true), queue_ok(b, qs), b.outputs@ == n.outputs@, fail_suffix(b),
+    ensures passes_frame(n, b), fails_ok(b, true), queue_ok(b, qs), b.outputs@ == n.outputs@, fail_suffix(b), lm_fail_ok(b),
         forall|s: int| 0 <= s < n.states@.len() ==> (#[trigger] b.states@[s]).output_pos.is_none(),
 {
     reveal(pctx);
@@ -917,6 +898,12 @@ proof fn lemma_lm_finish<V>(n: NfaBuilder<u8, V>, b: NfaBuilder<u8, V>, qs: Seq<
             (f != 1 && 0 <= f < b.states@.len() && nfa_depth(b, f) < nfa_depth(b, s)) || f == 1
         }) by {
             lemma_lm_get(n, b, qs, s);
+        }
+    }
+    assert(lm_fail_ok(b)) by {
+        assert forall|s: int| 2 <= s < b.states@.len() implies ((#[trigger] b.states@[s]).fail == 1 || fail_ok(b, s, b.states@[s].fail as int)) by {
+            lemma_lm_get(n, b, qs, s);
+            if b.states@[s].fail != 1 { lemma_fail_ok_same(n, b, s, b.states@[s].fail as int); }
         }
     }
     assert(queue_ok(b, qs)) by { reveal(q_basic); }
